@@ -37,6 +37,13 @@ MAY_PANIC_CALLS = re.compile(
     r"|core::cell::RefCell.*::(borrow|borrow_mut)$"
     r"|::from_utf8_unchecked$"
     r"|alloc::alloc::handle_alloc_error"
+    # arithmetic that inherits the caller's overflow checks or panics on a bad argument
+    r"|::sum$|::product$|::pow$|::next_power_of_two$|::abs$|::div_ceil$|::div_euclid$|::rem_euclid$|::ilog(2|10)?$|::isqrt$|::clamp$|::step_by$"
+    r"|core::ops::arith::(Add|Sub|Mul|Div|Rem|Neg)(Assign)?\b.*::[a-z_]+$|core::ops::bit::(Shl|Shr)(Assign)?\b.*::[a-z_]+$"
+    # allocations whose size an input can drive (capacity overflow / allocation failure)
+    r"|::with_capacity(_in)?$|alloc::vec::Vec::(reserve|reserve_exact|resize|resize_with|extend_from_within)$|alloc::vec::from_elem$|::repeat$"
+    r"|alloc::slice::<impl \[T\]>::(concat|join)$"
+    r"|::unwrap_unchecked$|::get_unchecked(_mut)?$|::unreachable_unchecked$"
     r")"
 )
 # diverging helpers that are not panics
